@@ -513,6 +513,10 @@ def check_case(ctx: Ctx, case, pending):
             ctx.fail(cd, f"corrector: {len(env.corr_log)} corrector calls for {nres} residuals ({tag})")
             return False
 
+        if not all(bool(torch.isfinite(c_[k_]).all()) for c_ in env.corr_log for k_ in ("R", "J", "Rc", "Jc")):
+            ctx.count("degenerate.nonfinite-residual")
+            return ok
+
         def cb_pick(rep, tags=tags, cd=cd, tag=tag, ncorr=env.n_corr):
             st, toks = common.parse_reply(rep)
             want = [int(t) for t in toks] if st == "ok" else None
@@ -580,6 +584,8 @@ def check_case(ctx: Ctx, case, pending):
             if len(blocks) != len(numels):
                 ctx.fail(cd, f"jac-width: modjac returns {len(blocks)} blocks for {len(numels)} parameters ({tag})")
                 return False
+            if not all(bool(torch.isfinite(raw(b)).all()) for b in blocks):
+                continue
             data = " ".join(x for x in (wl(raw(b)) for b in blocks) if x)
             line = (f"c07.hcat {rows} {len(numels)} " + " ".join(f"{n_} {1 if r_ else 0}" for n_, r_ in zip(numels, env.rg))
                     + (" " + data if data else ""))
@@ -797,6 +803,9 @@ def check_case(ctx: Ctx, case, pending):
         def check_update(p_before, Dk, p_after, what, sign=1.0):
             nonlocal ok
             Dk = (Dk.double() * sign).reshape(-1)
+            if not bool(torch.isfinite(Dk).all()) or not all(bool(torch.isfinite(x_).all()) for x_ in p_before):
+                ctx.count("degenerate.nonfinite-step")
+                return
             want_len = sum(n_ for n_, r in zip(numels, env.rg) if r)
             if Dk.numel() != want_len:
                 return   # (cannot happen after a successful step)
